@@ -444,10 +444,15 @@ impl Family for B1 {
             if let Some(n) = scn.prior_output_len.as_mut() {
                 *n = (*n).max(scn.plain.len + 200);
             }
+            let interactive = idx >= 6;
+            if interactive {
+                // a key world whose passwords can be typed on a terminal line (the even ones have no line
+                // terminators in them)
+                scn.seed &= !1;
+            }
             if let Some(w) = scn.wirings.first_mut() {
                 w.in_file = true;
                 w.in_fifo = false;
-                let interactive = idx >= 6;
                 w.typed_pass = interactive;
                 w.stdin_tty = interactive;
             }
